@@ -92,7 +92,7 @@ def hint_for(fb):
     return hint_obj(fb["hint"], fb.get("variant", 0))
 
 
-def _mk_method(name, site, ret=None, dyn=None):
+def _mk_method(name, site, ret=None, dyn=None, fn_name=None):
     """A method `name(self)` that reports to the recorder; for feedbacks it also returns the scripted value.
     dyn: suffix for classes shared by several components - the site is then derived from the name MagicRobot gave
     the instance (its injected logger), e.g. '<component>.execute'."""
@@ -109,8 +109,7 @@ def _mk_method(name, site, ret=None, dyn=None):
                 v = fb_value(hint, c, nohint_kind)
                 rt.cb(st, v)
                 return v
-        m.__name__ = name
-        m.__qualname__ = name
+        m.__name__ = m.__qualname__ = fn_name or name
         return m
     if ret is None:
         def m(self):
@@ -129,8 +128,9 @@ def _mk_method(name, site, ret=None, dyn=None):
                 return store
             rt.cb(site, v)
             return v
-    m.__name__ = name
-    m.__qualname__ = name
+    # (fn_name: the function object's own name differs from the attribute it is bound to - a lambda, or a function that
+    #  went through a helper decorator without functools.wraps)
+    m.__name__ = m.__qualname__ = fn_name or name
     return m
 
 
@@ -211,7 +211,7 @@ def build_robot(spec):
                 body[s["attr"]] = s["value"]
         for fb in c.get("feedbacks", ()):
             f = _mk_method(fb["name"], f"{cname}.fb.{fb['name']}", (fb["hint"], fb.get("nohint_kind", "float"), fb.get("same_object", False)),
-                           dyn=dyn(f"fb.{fb['name']}"))
+                           dyn=dyn(f"fb.{fb['name']}"), fn_name=fb.get("fn_name"))
             h = hint_for(fb)
             if h is not None:
                 f.__annotations__ = {"return": h}
@@ -240,7 +240,8 @@ def build_robot(spec):
             for r in c.get("extra_resets", ()):
                 extra[r["attr"]] = will_reset_to(rt.resolve(r["default"]))
             for fb in c.get("extra_feedbacks", ()):
-                f = _mk_method(fb["name"], None, (fb["hint"], fb.get("nohint_kind", "float"), False), dyn=f"fb.{fb['name']}")
+                f = _mk_method(fb["name"], None, (fb["hint"], fb.get("nohint_kind", "float"), False), dyn=f"fb.{fb['name']}",
+                               fn_name=fb.get("fn_name"))
                 h = hint_for(fb)
                 if h is not None:
                     f.__annotations__ = {"return": h}
@@ -291,7 +292,8 @@ def build_robot(spec):
             body["control_loop_wait_time"] = spec["period_us"] / 1e6
             body["use_teleop_in_autonomous"] = spec["teleop_in_auto"]
             for fb in spec.get("robot_feedbacks", ()):
-                f = _mk_method(fb["name"], f"R.fb.{fb['name']}", (fb["hint"], fb.get("nohint_kind", "float"), fb.get("same_object", False)))
+                f = _mk_method(fb["name"], f"R.fb.{fb['name']}", (fb["hint"], fb.get("nohint_kind", "float"), fb.get("same_object", False)),
+                               fn_name=fb.get("fn_name"))
                 h = hint_for(fb)
                 if h is not None:
                     f.__annotations__ = {"return": h}
